@@ -97,6 +97,8 @@ h19b!(c19_line_k5, 5, 8, false);
 h19b!(c19_line_k6, 6, 9, false);
 h19b!(c19_line_k7, 7, 10, false);
 h19b!(c19_line_k8, 8, 11, false);
+h19b!(c19_line_k10, 10, 13, false);
+h19b!(c19_line_k12, 12, 15, false);
 h19b!(c19_line_witness, 3, 6, true);
 
 // ---- H19c: span -> (start of first line, end of last line), from any state --------------------
@@ -137,6 +139,8 @@ h19c!(c19_span_k5, 5, 8);
 h19c!(c19_span_k6, 6, 9);
 h19c!(c19_span_k7, 7, 10);
 h19c!(c19_span_k8, 8, 11);
+h19c!(c19_span_k10, 10, 13);
+h19c!(c19_span_k12, 12, 15);
 
 // ---- texts ---------------------------------------------------------------------------------------
 
@@ -392,8 +396,30 @@ macro_rules! h19e {
             let off = unsafe { got.as_ptr().offset_from(s.as_ptr()) } as usize;
             assert!(off == ls, "lines of a span start at the start of its first line");
             assert!(off + got.len() == end_a || off + got.len() == end_b, "lines of a span end at the end of its last line");
-            let ((l1, _c1), (l2, _c2)) = lexer.line_col(cfgrammar::Span::new(st, en));
+            let ((l1, c1), (l2, c2)) = lexer.line_col(cfgrammar::Span::new(st, en));
             assert!(l1 == line_s && l2 == line_e, "line numbers of both ends of the span");
+            // columns: 1 + characters since the line began; at the LF of a CR LF pair either half's column
+            let mut ch_s = 0;
+            let mut ch_e = 0;
+            let mut i = 0;
+            while i < B {
+                if (buf[i] & 0xC0) != 0x80 {
+                    if i >= ls && i < st {
+                        ch_s += 1;
+                    }
+                    if i >= ls_e && i < en {
+                        ch_e += 1;
+                    }
+                }
+                i += 1;
+            }
+            let lf_s = st < B && buf[st] == b'\n' && st > ls && buf[st - 1] == b'\r';
+            let lf_e = en < B && buf[en] == b'\n' && en > ls_e && buf[en - 1] == b'\r';
+            assert!(c1 == ch_s + 1 || (lf_s && c1 == ch_s), "column of the span's start");
+            assert!(c2 == ch_e + 1 || (lf_e && c2 == ch_e), "column of the span's end");
+            // a position's line and column do not depend on which span it is an end of
+            let (p_end, _) = lexer.line_col(cfgrammar::Span::new(en, en));
+            assert!(p_end == (l2, c2), "the same offset has the same line and column as a span end and as a span start");
             kani::cover!(line_e > line_s, "span over more than one line");
             kani::cover!(en == B && st < en, "span ending at end of text");
             std::mem::forget(lexer);
